@@ -469,6 +469,7 @@ def run(ctx):
             # rejected-or-not and the value are compared; which exception class a malformed object trips first is not
             # (wrap_pair checks for missing fields before any leaf is converted, the mirror converts while descending)
             got = show(real.of_py(bad), G.val_toks)
+            ctx.count('malformed_object', 'rejected' if got.startswith('err:') else 'accepted')
             if model is not None and model[idx] != 'unmodelled' and not (got.startswith('err:') and model[idx].startswith('err:')) and got != model[idx]:
                 ctx.mismatch('from-python-object-malformed', {'type': tdesc, 'object': repr(bad)[:200]}, got, model[idx])
         # ---- contract-level helpers
@@ -477,8 +478,36 @@ def run(ctx):
     entrypoint_stream(ctx)
 
 
+STRING_SPOILERS = ['\t', '\x01', '\x7f', '\x00', '\r', '\x1f', 'é', '\n']      # the last one leaves a valid Michelson string
+
+
+def spoil_string(rng, py):
+    """the object with one string leaf (not a dict key) given a control / non-ASCII character or a newline; None if it has none"""
+    if isinstance(py, str):
+        c = rng.choice(STRING_SPOILERS)
+        i = rng.randrange(len(py) + 1)
+        return py[:i] + c + py[i:]
+    if isinstance(py, (tuple, list)):
+        for i in rng.sample(range(len(py)), len(py)):
+            r = spoil_string(rng, py[i])
+            if r is not None:
+                return type(py)(list(py[:i]) + [r] + list(py[i + 1:]))
+    if isinstance(py, dict):
+        keys = list(py)
+        for k in rng.sample(keys, len(keys)):
+            r = spoil_string(rng, py[k])
+            if r is not None:
+                return {kk: (r if kk == k else vv) for kk, vv in py.items()}
+    return None
+
+
 def mutate_py(rng, py):
-    """a non-canonical or malformed variant of a Python object (shuffled dict, list for tuple, dropped / extra field)"""
+    """a non-canonical or malformed variant of a Python object (shuffled dict, list for tuple, dropped / extra field, a string
+    with a character `StringType.from_value` refuses — or a newline, which it takes)"""
+    if rng.random() < 0.4:
+        r = spoil_string(rng, py)
+        if r is not None:
+            return r
     if isinstance(py, dict) and py:
         items = list(py.items())
         k = rng.randrange(4)
